@@ -109,3 +109,136 @@ Example C13_roundtrip_instance :
   | inl _ => False
   end.
 Proof. vm_compute. repeat split; reflexivity. Qed.
+
+(* ------------------------------------------------------------------------------------
+   The receive half at STREAM level, spelled out (definitions: coq/model/ReaderStream.v and
+   coq/model/ReaderStreamC13.v; proofs: coq/proofs/ReaderStreamC13Proofs.v, from
+   C04_reader_meets_spec and the frame-sequence spec evaluated on the message's shape).
+
+   ONE DATA MESSAGE, FRAGMENTED ARBITRARILY.  [msg_frames_rsv rsv0 op k0 p0 l]: a first frame
+   with opcode [op] (1 = text or 2 = binary), reserved bits [rsv0] (RSV1 = 4, RSV2 = 2,
+   RSV3 = 1), masking key [k0], payload [p0]; then for every element of [l] the control frames
+   [fr_ctl] the peer sends in between and a continuation frame (opcode 0, NO reserved bit) with
+   key [fr_key] and payload [fr_data]; FIN on the last data frame only.  [msg_payload p0 l] is
+   the concatenation of the fragment payloads.  Side conditions: frames are well-formed
+   objects, masked as the reader's side wants ([mask_ok]), within the size limit, the control
+   frames in between are close/ping/pong, final, without reserved bits, at most 125 bytes
+   ([ctl_ok]); reserved bits on the first frame need the "extended" bit of ws.State (else
+   CheckHeader refuses them: C05).  UTF-8 checking may be off, or on — then a TEXT message is
+   assumed valid (the invalid case is C07_text_message_iff_valid).
+   The Reader has the wsflate.MessageState attached (c_ext = true, flag initially false), header
+   checks on, recording OnIntermediate; side bits [state], [chk], limit [max] arbitrary; [s] is ANY
+   transport chunking of the wire bytes, [bufs] ANY caller buffer sizes.
+   Then the NextFrame / read-to-EOF loop ends with a clean io.EOF, nothing left over, and has
+   delivered EXACTLY: the interleaved control frames in order, each with its exact payload and
+   — as the model defines the flag of an intermediate control event: the MessageState flag at
+   the time of the callback — the flag b of the message; then ONE data event: opcode [op],
+   payload the whole concatenation, flag b — where b = [rsv1_bit rsv0] is the RSV1 bit of the
+   FIRST frame.  So the state reports "compressed" exactly when the first frame had RSV1, and
+   the control frames between the fragments do not disturb it. *)
+Require Import ReaderAux ReaderStream ReaderStreamC13 ReaderStreamC13Proofs.
+
+Theorem C13_message_flag_iff_rsv1 : forall state chk max rsv0 op k0 p0 l s bufs fuel,
+  let c := mkCfg state chk max true in
+  let fs := msg_frames_rsv rsv0 op k0 p0 l in
+  let whole := msg_payload p0 l in
+  let b := rsv1_bit rsv0 in
+  wf_cfg c -> (op = 1 \/ op = 2) -> (rsv0 = 0 \/ st_extended state = true) ->
+  Forall wf_sframe fs ->
+  Forall (fun f => mask_ok state f = true /\ too_large c f = false) fs ->
+  Forall (fun x => Forall (fun f => ctl_ok f = true) (fr_ctl x)) l ->
+  (chk = true -> op = 1 -> valid_utf8 whole = true) ->
+  wf_src s -> tl s = TEOF -> flat s = wire fs ->
+  (2 * length (wire fs) + 4 * length fs + 8 <= fuel)%nat ->
+  let d := drive fuel bufs (new_reader s state false chk max true CbReadAll) in
+  dr_err d = RIo EEOF /\ dr_partial d = [] /\
+  dr_events d = msg_ctl_events_c b l ++ [mkEv op whole false b].
+Proof. exact message_flag_iff_rsv1. Qed.
+Print Assumptions C13_message_flag_iff_rsv1.
+
+(* RSV1 ON A LATER FRAME.  The same message [fs0] (extended state), but frame number [i]
+   (counted from 0, so 1 <= i: a continuation frame or an interleaved control frame) carries
+   the reserved bits [rbad] with RSV1 set ([set_rsv_at i rbad fs0]); any frames [rest] may
+   follow.  Then the loop ends with wsflate.ErrUnexpectedCompressionBit; what was delivered is
+   exactly the control frames BEFORE frame i (flag b of the message) — no data message at all
+   — and the bytes handed out for the unfinished message are exactly the payloads of the data
+   frames before frame i: not a byte of the offending frame or of any later frame. *)
+Theorem C13_rsv1_on_later_frame_rejected : forall state chk max rsv0 op k0 p0 l i rbad rest s bufs fuel,
+  let c := mkCfg state chk max true in
+  let fs0 := msg_frames_rsv rsv0 op k0 p0 l in
+  let fs := set_rsv_at i rbad fs0 ++ rest in
+  let b := rsv1_bit rsv0 in
+  wf_cfg c -> (op = 1 \/ op = 2) -> st_extended state = true -> rsv0 < 8 ->
+  (1 <= i < length fs0)%nat -> rbad < 8 -> rsv1_bit rbad = true ->
+  Forall wf_sframe fs0 -> Forall wf_sframe rest ->
+  Forall (fun f => mask_ok state f = true /\ too_large c f = false) fs0 ->
+  Forall (fun x => Forall (fun f => ctl_ok f = true) (fr_ctl x)) l ->
+  (chk = true -> op = 1 -> valid_utf8 (msg_payload p0 l) = true) ->
+  wf_src s -> tl s = TEOF -> flat s = wire fs ->
+  (2 * length (wire fs) + 4 * length fs + 8 <= fuel)%nat ->
+  let d := drive fuel bufs (new_reader s state false chk max true CbReadAll) in
+  dr_err d = RCompressionBit /\
+  dr_events d = inter_events b (firstn i fs0) /\ data_events (dr_events d) = [] /\
+  dr_partial d = data_bytes_of_frames (firstn i fs0).
+Proof. exact rsv1_on_later_frame_rejected. Qed.
+Print Assumptions C13_rsv1_on_later_frame_rejected.
+
+(* THE HEADER HANDED TO THE APPLICATION, for ANY Reader state and configuration with the
+   MessageState attached: when NextFrame accepts a header [hdr] that starts a data message
+   (text/binary opcode), the header it returns is [hdr] with RSV1 cleared and every other field
+   — RSV2, RSV3 included: rsv mod 4 — untouched, and the flag becomes the RSV1 bit ... *)
+Theorem C13_header_bits_cleared : forall r hdr s1 h r',
+  r_ext r = true -> reader_read_header (r_src r) = (inr hdr, s1) -> h_rsv hdr < 8 ->
+  op_is_data (h_op hdr) = true -> h_op hdr <> 0 ->
+  next_frame r = ((h, None), r') ->
+  h = mkHeader (h_fin hdr) (h_rsv hdr mod 4) (h_op hdr) (h_masked hdr) (h_mask hdr) (h_len hdr) /\
+  r_compressed r' = (4 <=? h_rsv hdr) /\ r_frame r' = true.
+Proof. exact next_frame_first_header. Qed.
+Print Assumptions C13_header_bits_cleared.
+
+(* ... and when it accepts a control or continuation header, that header had no RSV1, is
+   returned as received, and the flag is left as it was *)
+Theorem C13_other_headers_untouched : forall r hdr s1 h r',
+  r_ext r = true -> reader_read_header (r_src r) = (inr hdr, s1) -> h_rsv hdr < 8 ->
+  (op_is_data (h_op hdr) = false \/ h_op hdr = 0) ->
+  next_frame r = ((h, None), r') ->
+  h = hdr /\ r_compressed r' = r_compressed r /\ h_rsv hdr < 4.
+Proof. exact next_frame_other_header. Qed.
+Print Assumptions C13_other_headers_untouched.
+
+(* a server with extensions (state 5), UTF-8 checking on, chunks of 3,1,7,2,... bytes, buffers
+   2,5,1; the text "h€!" in three masked fragments with a masked ping before the second.
+   (1) RSV1 on the first frame: ping and message delivered with flag true; (2) no RSV1: the
+   same with flag false; (3) RSV1 also on the SECOND fragment (frame 2): compression-bit
+   error, the ping was logged, no message, exactly the first fragment handed out; (4) RSV1 on
+   the ping (frame 1): the error, nothing logged. *)
+Example C13_stream_nonvacuous :
+  let k1 := [17; 34; 51; 68] in let k2 := [255; 0; 128; 7] in
+  let ping := mkSF true 0 9 (Some k2) [1; 2] in
+  let l := [mkFrag [ping] (Some k2) [130]; mkFrag [] (Some k1) [172; 33]] in
+  let c := mkCfg 5 true 0 true in
+  let run fs := let s := mkSrc (chunk_by [3; 1; 7; 2] (wire fs)) TEOF in
+                drive (2 * length (wire fs) + 4 * length fs + 8) [2; 5; 1] (new_reader s 5 false true 0 true CbReadAll) in
+  let fs1 := msg_frames_rsv 4 1 (Some k1) [104; 226] l in
+  let fs2 := msg_frames_rsv 0 1 (Some k1) [104; 226] l in
+  (wf_cfg c /\ st_extended 5 = true /\ Forall wf_sframe fs1 /\
+   Forall (fun f => mask_ok 5 f = true /\ too_large c f = false) fs1 /\
+   Forall (fun x => Forall (fun f => ctl_ok f = true) (fr_ctl x)) l /\
+   valid_utf8 (msg_payload [104; 226] l) = true /\
+   wf_src (mkSrc (chunk_by [3; 1; 7; 2] (wire fs1)) TEOF) /\
+   flat (mkSrc (chunk_by [3; 1; 7; 2] (wire fs1)) TEOF) = wire fs1) /\
+  fs1 = [mkSF false 4 1 (Some k1) [104; 226]; ping; mkSF false 0 0 (Some k2) [130]; mkSF true 0 0 (Some k1) [172; 33]] /\
+  run fs1 = mkDR [mkEv 9 [1; 2] true true; mkEv 1 [104; 226; 130; 172; 33] false true] [] (RIo EEOF) /\
+  run fs2 = mkDR [mkEv 9 [1; 2] true false; mkEv 1 [104; 226; 130; 172; 33] false false] [] (RIo EEOF) /\
+  set_rsv_at 2 4 fs1 = [mkSF false 4 1 (Some k1) [104; 226]; ping; mkSF false 4 0 (Some k2) [130]; mkSF true 0 0 (Some k1) [172; 33]] /\
+  run (set_rsv_at 2 4 fs1 ++ []) = mkDR [mkEv 9 [1; 2] true true] [104; 226] RCompressionBit /\
+  inter_events true (firstn 2 fs1) = [mkEv 9 [1; 2] true true] /\ data_bytes_of_frames (firstn 2 fs1) = [104; 226] /\
+  run (set_rsv_at 1 5 fs2 ++ [ping]) = mkDR [] [104; 226] RCompressionBit.
+Proof.
+  cbv zeta. split.
+  - split; [reflexivity|]. split; [reflexivity|]. split.
+    { repeat constructor; try reflexivity; try (intro H; discriminate H). }
+    split; [repeat constructor|]. split; [repeat constructor|]. split; [reflexivity|].
+    split; [vm_compute; repeat constructor; discriminate|]. vm_compute; reflexivity.
+  - vm_compute. repeat split; reflexivity.
+Qed.
